@@ -10,6 +10,7 @@ import (
 	"path/filepath"
 	"sort"
 	"strings"
+	"time"
 )
 
 // ---- the seam injected into the generator -----------------------------------
@@ -33,6 +34,9 @@ type Chooser interface {
 
 // C is the active chooser; nil means sorted order.
 var C Chooser
+
+// Scope is the directory below which the loader's file parse order is chosen by C.
+var Scope string
 
 func keyStr(k any) string {
 	switch x := k.(type) {
@@ -89,6 +93,24 @@ func Order[T any](xs []T, key func(T) string, site string) []T {
 }
 `
 
+const loaderSeamSrc = `
+
+// McrtFileOrder, when set, decides the order in which the n files of the
+// package in dir are parsed (and so given their position bases).
+var McrtFileOrder func(dir string, n int) []int
+
+func mcrtFileOrder(dir string, n int) []int {
+	if McrtFileOrder != nil {
+		return McrtFileOrder(dir, n)
+	}
+	order := make([]int, n)
+	for i := range order {
+		order[i] = i
+	}
+	return order
+}
+`
+
 // explore.go of the library driver (E3b)
 const libdrvExplore = `package main
 
@@ -105,7 +127,22 @@ import (
 
 	"github.com/awalterschulze/goderive/derive"
 	"` + mcrtImportPath + `"
+	"golang.org/x/tools/go/loader"
 )
+
+func init() {
+	loader.McrtFileOrder = func(dir string, n int) []int {
+		order := make([]int, n)
+		for i := range order {
+			order[i] = i
+		}
+		s := mcrt.Scope
+		if mcrt.C == nil || s == "" || !strings.HasPrefix(dir, s) {
+			return order
+		}
+		return mcrt.Order(order, func(i int) string { return strconv.Itoa(1000000 + i) }, "x/tools/go/loader/util.go:parseFiles")
+	}
+}
 
 type point struct {
 	N      int
@@ -177,6 +214,12 @@ func explore(args []string) {
 	load := func() (derive.Program, error) {
 		return derive.NewPlugins(allPlugins(), autoname, dedup).Load(derive.ImportPaths(paths))
 	}
+	if abs, err := filepath.EvalSymlinks(root); err == nil {
+		mcrt.Scope = abs
+	} else {
+		mcrt.Scope = root
+	}
+	reload := os.Getenv("MCRT_RELOAD") == "1"
 	prog, err := load()
 	if err != nil {
 		rep.Error = "load: " + err.Error()
@@ -217,7 +260,14 @@ func explore(args []string) {
 		clean()
 		c := &chooser{prefix: prefix}
 		mcrt.C = c
-		err := prog.Generate()
+		var err error
+		if reload {
+			// the first load is part of the execution (file parse order)
+			prog, err = load()
+		}
+		if err == nil {
+			err = prog.Generate()
+		}
 		mcrt.C = nil
 		sha, files := observe()
 		if err != nil {
@@ -431,6 +481,34 @@ func buildMapOrderOverlay() (map[string]string, *rewriteStats, error) {
 			overlay[path] = op
 			st.Files++
 		}
+	}
+	// the loader parses the files of a package in concurrent goroutines, and a file's
+	// position base is fixed when its parse starts: replace the goroutines by a
+	// sequential parse in an order the explorer chooses (packages below mcrt.Scope only)
+	if ld := run(repoDir, time.Minute, nil, "go", "list", "-f", "{{.Dir}}", "golang.org/x/tools/go/loader"); ld.Exit == 0 {
+		ldir := strings.TrimSpace(ld.Stdout)
+		usrc, err := os.ReadFile(filepath.Join(ldir, "util.go"))
+		if err != nil {
+			return nil, nil, err
+		}
+		u := string(usrc)
+		for _, r := range [][2]string{
+			{"\tfor i, file := range files {\n\t\tif !buildutil.IsAbsPath(ctxt, file) {", "\tfor _, i := range mcrtFileOrder(dir, len(files)) {\n\t\tfile := files[i]\n\t\tif !buildutil.IsAbsPath(ctxt, file) {"},
+			{"\t\tgo func(i int, file string) {", "\t\tfunc(i int, file string) {"},
+		} {
+			if strings.Count(u, r[0]) != 1 {
+				return nil, nil, fmt.Errorf("loader/util.go does not have the expected shape (%q)", r[0])
+			}
+			u = strings.Replace(u, r[0], r[1], 1)
+		}
+		u += loaderSeamSrc
+		up := filepath.Join(outDir, "loader__util.go")
+		writeFile(up, u)
+		overlay[filepath.Join(ldir, "util.go")] = up
+		st.Sites = append(st.Sites, "x/tools/go/loader/util.go:parseFiles")
+		st.OrderCalls++
+	} else {
+		return nil, nil, fmt.Errorf("cannot locate golang.org/x/tools/go/loader: %s", tail(ld.Stderr, 300))
 	}
 	mp := filepath.Join(outDir, "mcrt.go")
 	writeFile(mp, mcrtSrc)
